@@ -7,4 +7,19 @@ def run(ctx):
                    ["auto-restart after a host reboot and dynamic actor creation are not modelled"])
 
 
-META = {"level": "proof", "text": "", "note": "", "technique": C03.META["technique"], "claimed": False}
+META = {
+    "level": "proof",
+    "text": "Coq theorems about the engine model shared with C03: whatever the reason an actor ends for, its on_exit callbacks run exactly once "
+            "each in reverse registration order at the date of the end, followed by the termination signal, and a dead actor keeps no callback, "
+            "kill timer or daemon flag (C11_on_exit_once_reverse, C11_dead_is_clean); a scheduled suspended actor executes and observes nothing "
+            "until resume (C11_suspended_no_progress); kill times and join timeouts are never jumped over by the clock "
+            "(C11_kill_time_not_jumped_over); observations of every run are time-ordered (C11_log_ordered). join = min(death, t0+t), daemon "
+            "sweep when the last regular actor ends, kill-time exactness and frozen execs of suspended actors are tied to the rebuilt library "
+            "by exact per-actor log comparison of generated programs and judged by an oracle on every implementation log.",
+    "note": "on_exit/suspension/time theorems are proved for all states or all runs; join, daemon sweep and kill-time exactness are checked by "
+            "the correspondence and the oracle only (no end-to-end Coq theorem). Not modelled: auto-restart after reboot, host failure, dynamic "
+            "creation, comm suspension. Fixed defect e6bd85acee (suspend of an actor owning a terminated exec crashed). Known finding "
+            "resume-reschedules-running-actor (C11_resume_race_witness): the model stops at the race, those cases are judged by the oracle.",
+    "technique": C03.META["technique"],
+    "claimed": True,
+}
